@@ -33,7 +33,10 @@ PARTIAL = ['clause "does not modify the caller\'s array": no theorem (numpy alia
            'cannot return the original values when the stored eigenvalues are not ascending)']
 RULE = ('batches of 1..6 symmetric tensors (random dyadic / decimal / integer-valued entries, scale 1e-6..1e6, rotated '
         'diag(l,l,m) with repeated eigenvalues, isotropic, zero, one eigenvalue 1e-12 (near-singular), strains with '
-        '1+l down to 1e-3) x component order (all 720 permutations in the thorough tier, a random sample + identity + '
+        '1+l down to 1e-3; stream "strain:near-singular": strains with one to three principal values -1+d, '
+        'd in {1e-6, 3e-6, 1e-7, 2e-6, 5e-6}, the others in (-.5, .9) or repeated, random / axis-aligned orientation, both shear '
+        'conventions, alone or batched with ordinary strains, judged with a tolerance linear in the magnitude of the inverse) '
+        'x component order (all 720 permutations in the thorough tier, a random sample + identity + '
         'reversal in quick) x both shear conventions x memory layout of the input (C, Fortran, strided view); '
         'align_nnz: 1..4 CSR / COO matrices of a common shape up to 6x6 with densities 0..1 (empty and full included), '
         'explicit zeros, unsorted indices, mixed signs. distinct = distinct (helper, input, options); a case is '
@@ -43,6 +46,10 @@ ASSUMPTIONS = [
     'checked numerically on every captured call (residual <= 1e-12 * scale)',
     'float results are compared with the exact model within stated tolerances: 1e-15 (cross product of unit vectors), '
     '1e-13 * scale (reconstruction), 1e-12 * kappa^2 * scale (strain inversion, kappa = max |1/(1+l)|), 1e-12 * D (align_nnz)',
+    'near-singular strains (stream strain:near-singular, 1+l down to 1e-7): strain inverted twice is compared with the original '
+    'within 5e-14 * kappa * scale, i.e. ~225 ulp of the magnitude kappa of the once-inverted tensor (rounding of eigh on a matrix of '
+    'norm kappa; measured worst case on the unchanged code over 12000 tensors: 1.4e-15 * kappa); a deviation of 1e-8 or more at '
+    'kappa <= 1e5, or of 1e-6 at kappa = 1e7, is reported',
     'values are normal binary64 numbers with |x| <= 1e300 (x/2*2 is not exact on denormals)',
     '"does not modify the caller\'s array" is an aliasing fact of numpy fancy indexing: checked on the implementation '
     'by snapshot comparison, not a theorem',
@@ -182,6 +189,42 @@ def batch(rnd, order, eng, strain=False):
         b = [t[0], t[1], t[2]] + [x * (2 if eng else 1) for x in t[3:]]     # slot values after reordering
         rows.append([b[io[k]] for k in range(6)])                           # a[order[k]] = b[k]
     return np.array(rows, dtype=float), np.array(ts, dtype=float), kinds
+
+
+NS_DELTAS = [1e-6, 3e-6, 1e-7, 1e-6, 3e-6, 1e-7, 2e-6, 5e-6]
+
+
+def near_singular_strain(rnd):
+    """tensor components [11, 22, 33, 12, 23, 31] of a strain with 1..3 principal values -1 + d (principal stretch d, an almost
+    completely collapsed direction), the remaining ones ordinary or repeated; random rational or axis-aligned orientation"""
+    k = rnd.choice([1, 1, 1, 1, 2, 3])
+    lam = [-1 + rnd.choice(NS_DELTAS) for _ in range(k)] + [rnd.uniform(-.5, .9) for _ in range(3 - k)]
+    if k == 1 and rnd.random() < .15:
+        lam[2] = lam[1]
+    rnd.shuffle(lam)
+    orient = 'axis' if rnd.random() < .15 else 'rotated'
+    R = np.eye(3) if orient == 'axis' else rational_rotation(rnd)
+    A = R @ np.diag(lam) @ R.T
+    A = (A + A.T) / 2
+    return [float(x) for x in (A[0, 0], A[1, 1], A[2, 2], A[0, 1], A[1, 2], A[0, 2])], k, orient
+
+
+def near_singular_batch(rnd, eng):
+    """(n, 6) user array (default order) with at least one near-singular strain, some batched with ordinary strains"""
+    n = rnd.randint(1, 4)
+    which = [rnd.random() < .75 for _ in range(n)]
+    which[rnd.randrange(n)] = True
+    rows, kinds = [], []
+    for ns in which:
+        if ns:
+            t, k, orient = near_singular_strain(rnd)
+            kinds.append(f'near-singular-strain:{k}:{orient}')
+        else:
+            kind = rnd.choice(TKINDS)
+            t = tensor6(rnd, kind, strain=True)
+            kinds.append(kind)
+        rows.append([t[0], t[1], t[2]] + [x * (2 if eng else 1) for x in t[3:]])
+    return np.array(rows, dtype=float), kinds
 
 
 def mat_of(t):
@@ -342,6 +385,10 @@ def check_strain(ctx, case):
     kappa = np.maximum(1.0, np.abs(1 / (1 + w)).max(axis=1))
     scale = np.maximum(np.abs(T).max(axis=(1, 2)), 1.0)
     tol = 1e-12 * kappa**2 * scale
+    if case.get('tol') == 'linear':
+        # near-singular stream: the once-inverted tensor has magnitude kappa, eigh on it is accurate to a few ulp of kappa
+        # and the second inversion maps that back with factors (1 + l)^2 <= O(1): rounding noise is linear in kappa
+        tol = np.minimum(tol, 5e-14 * kappa * scale / 2)
     if inv2.shape != before.shape or not np.all(np.abs(inv2 - before).max(axis=1) <= tol * 2):
         fails.append(('strain:twice', 'inverting a strain twice does not return the original',
                       {'input': before.tolist(), 'once': inv1.tolist(), 'twice': np.asarray(inv2).tolist(), 'tol': tol.tolist()}))
@@ -591,6 +638,18 @@ def run(ctx):
                nontrivial=any(s['entries'] for s in case['mats']))
         ctx.count(f'align:fmt={case["mats"][0]["fmt"]}')
         ctx.count(f'align:k={len(case["mats"])}')
+    # 6. invert_strain on near-singular strains (principal stretch 1 + l = 1e-7 .. 5e-6), linear tolerance; drawn last so
+    #    that the cases of the streams above are unchanged for a given seed
+    for _ in range(ctx.n(200, 1000)):
+        eng = rnd.random() < .5
+        a, kinds = near_singular_batch(rnd, eng)
+        case = {'a': a.tolist(), 'eng': eng, 'tol': 'linear'}
+        record('strain', case, check_strain, ('ns', a.tobytes(), eng), None)
+        ctx.count('stream:strain:near-singular')
+        ctx.count(f'stream:strain:near-singular:{"engineering" if eng else "tensor"}')
+        for k in kinds:
+            if k.startswith('near-singular-strain'):
+                ctx.count('strain:' + k)
     ctx.extra['orders'] = len(orders)
 
 
